@@ -53,6 +53,7 @@ class EngineTrace:
         self.max_errors = max_errors
         self.scheduler = scheduler
         self.labels = []          # [(label string, snapshot string | None)]
+        self.timeline = []        # labels and raw events interleaved, in real order
         self.events = []          # raw monitor events: ('begin', w, x) ('endok', w, x) ('endfail', w, x, exc)
         self.workers = []
         self.queue = None
@@ -172,6 +173,7 @@ class Sched:
         if tr is None:
             return
         tr.labels.append((label, self.snapshot(tr) if self.snapshots else None))
+        tr.timeline.append("L:" + label)
 
     def flush_pending(self, ts):
         """Emit the lazily-placed label of `ts` (a plain shared read/write that happened since its last primitive)."""
@@ -540,6 +542,7 @@ def _wrapped_rfog(graph, fn, *, worker_count=None, max_errors=0, scheduler=None)
         s.flush_pending(w)            # check (stop was read just before, no primitive in between)
         x = tr.ids.get(node)
         tr.events.append(("begin", w.widx, x))
+        tr.timeline.append("begin %s" % x)
         s.begins += 1
         w.in_fn = x
         if s.interrupt_at is not None and not s.interrupted and s.begins >= s.interrupt_at:
@@ -637,6 +640,7 @@ def run_controlled(thunk, seed, mode="prim", interrupt_at=None, switch_p=0.5, op
         sys.settrace(None)
         SCHED = None
         random.setstate(rstate)
+        uninstall()
     res.sched = s
     res.traces = s.traces
     res.deadlock = s.deadlock
